@@ -56,6 +56,17 @@ def gen_cases(ctx):
     # fixed: [value, unit] lists whose value is not a whole number (value + 0.5) with every legal unit
     for v, text in [(1, "h"), (2, "m"), (0, "h"), (5, "s"), (1, "D"), (90, "m")]:
         out.append({"k": "period", "sk": "list", "value": v, "text": text, "bad_value": True})
+    # the CF time value as it reaches the output files: records of histories whose output period is NOT a whole number
+    # of time steps, several reference times, both directions (driver and oracle of C06: every record's time must be the
+    # offset of ITS step from the reference)
+    import c06
+
+    k = 0
+    for d in c06.gen_cases(ctx):
+        if d.get("k") == "hist" and k < (8 if ctx.quick else 60):
+            d = dict(d, pextra=[150, 450, 300, 590][k % 4], ref=[None, 0, 98765, 250000][k % 4], rev=(k % 3 == 2), numrec=[0, 2][k % 2])
+            out.append({"k": "outtime", "c06": d})
+            k += 1
     # period spellings
     for _ in range(n // 2):
         v = rng.choice([0, 1, 5, 60, 90, 3600, rng.randint(0, 10**6)])
@@ -126,6 +137,14 @@ def sec(t):
 def eval_case(desc, ctx):
     from ladim.timekeeper import TimeKeeper, normalize_period
 
+    if desc["k"] == "outtime":
+        import c06
+
+        r = c06.eval_case(desc["c06"], ctx)
+        msg = r["oracle"] if (r["oracle"] and ("time" in r["oracle"] or "units" in r["oracle"] or "records" in r["oracle"])) else None
+        return {"ints": None, "oracle": ("time coordinate of the output records: " + msg) if msg else None,
+                "nontrivial": ("outtime",) + tuple(r["nontrivial"]) if r.get("nontrivial") else None, "kind": "outtime-" + r["kind"],
+                "observed": r.get("observed")}
     if desc["k"] == "period":
         sk, v, text = desc["sk"], desc["value"], desc["text"]
         if sk == "int":
